@@ -178,7 +178,7 @@ fn hw_delivers(bin: &std::path::Path) -> Result<bool, String> {
     let mut s = e2e::launch(bin, &["p,w0,p".to_string()])?;
     s.dbg.set_breakpoint_at_fn("phase").map_err(|e| e.to_string())?;
     s.dbg.start_debugee().map_err(|e| e.to_string())?;
-    s.wait_out("G=", 2000);
+    s.wait_out("G=", 20000);
     let out = s.stdout();
     let g = out.lines().find_map(|l| l.strip_prefix("G=0x")).and_then(|h| u64::from_str_radix(h.trim(), 16).ok()).ok_or("parse G")?;
     s.dbg
@@ -244,7 +244,7 @@ fn one_history(bin: &std::path::Path, rng: &mut Rng, hw_delivers: bool) -> Resul
     let mut s = e2e::launch(bin, &[plan_s.clone()])?;
     s.dbg.set_breakpoint_at_fn("phase").map_err(|e| format!("break phase: {e}"))?;
     s.dbg.start_debugee().map_err(|e| format!("start: {e}"))?;
-    if !s.wait_out("G=", 2000) {
+    if !s.wait_out("G=", 20000) {
         return Err("no G= line".into());
     }
     let out = s.stdout();
